@@ -355,6 +355,26 @@ func globalBehind(v ssa.Value) *ssa.Global {
 	return nil
 }
 
+// readOnlySliceCallee: standard-library functions known only to read their slice arguments.
+func readOnlySliceCallee(f *ssa.Function) bool {
+	if f.Pkg == nil {
+		return false
+	}
+	switch f.Pkg.Pkg.Path() {
+	case "strings", "unicode/utf8", "fmt", "errors", "log":
+		return true
+	case "bytes":
+		n := f.Name()
+		return strings.HasPrefix(n, "Index") || strings.HasPrefix(n, "Contains") || strings.HasPrefix(n, "Has") || strings.HasPrefix(n, "Equal") || n == "Compare" || n == "Count" || strings.HasPrefix(n, "LastIndex") || n == "NewReader" || n == "NewBuffer"
+	case "sort":
+		return strings.HasPrefix(f.Name(), "Search") || strings.HasSuffix(f.Name(), "AreSorted") || f.Name() == "IsSorted"
+	case "slices":
+		n := f.Name()
+		return strings.HasPrefix(n, "Index") || strings.HasPrefix(n, "Contains") || n == "Equal" || n == "BinarySearch" || strings.HasPrefix(n, "IsSorted") || n == "Max" || n == "Min"
+	}
+	return false
+}
+
 // of returns the effects of a single function (not transitive).
 func (e *effectEngine) of(fn *ssa.Function) []Effect {
 	if ef, ok := e.perFn[fn]; ok {
@@ -429,6 +449,25 @@ func (e *effectEngine) of(fn *ssa.Function) []Effect {
 					case "sort.Slice", "sort.SliceStable", "sort.Sort", "sort.Stable", "sort.Strings", "sort.Ints", "sort.Float64s",
 						"slices.Sort", "slices.SortFunc", "slices.SortStableFunc", "slices.Reverse":
 						target = in.Call.Args[0]
+					}
+				}
+				// a slice of one of our package-level variables handed to a function outside the
+				// analysed modules that takes a mutable slice (e.g. (*big.Float).Append(buf, …),
+				// strconv.AppendInt(buf, …), io.ReadFull(r, buf)): the callee may write it
+				if target == nil {
+					if callee := in.Call.StaticCallee(); callee != nil && callee.Pkg != nil && !e.c.isOurs(callee.Pkg.Pkg.Path()) && !readOnlySliceCallee(callee) {
+						for _, a := range in.Call.Args {
+							v := a
+							if sl, ok := v.(*ssa.Slice); ok {
+								v = sl.X
+							}
+							if _, isSlice := a.Type().Underlying().(*types.Slice); !isSlice {
+								continue
+							}
+							if g := globalBehind(v); g != nil && g.Pkg != nil && e.c.isOurs(g.Pkg.Pkg.Path()) {
+								add(Effect{Kind: "global", Owner: g.String(), Fresh: false}, in)
+							}
+						}
 					}
 				}
 				if target != nil {
